@@ -325,7 +325,11 @@ func (g *histGen) op() {
 			} else {
 				b.addn(uint64(g.nin + r.Intn(2)))
 			}
-			b.add(b01(r.Chance(70)))
+			if valid {
+				b.add(b01(r.Chance(70)))
+			} else {
+				b.addn(uint64(r.Pick(0, 1, 1, 2)))
+			}
 		}
 		// distinct output indexes (sort.Slice is not stable)
 		var idxs []int
@@ -344,7 +348,7 @@ func (g *histGen) op() {
 			if valid {
 				b.add("0")
 			} else {
-				b.addn(uint64(r.Pick(0, 0, 1, 2)))
+				b.addn(uint64(r.Pick(0, 0, 1, 2, 3)))
 			}
 		}
 		for i := 0; i < 4; i++ {
@@ -537,12 +541,12 @@ func (g *histGen) scenario() {
 		var outs []string
 		for k := 0; k < nb; k++ {
 			if k == 0 || r.Chance(70) {
-				outs = append(outs, fmt.Sprintf("%d 0", first+k))
+				outs = append(outs, fmt.Sprintf("%d %d", first+k, r.Pick(0, 0, 0, 0, 0, 0, 0, 0, 0, 3)))
 			}
 		}
 		iss := "0"
 		if r.Chance(30) {
-			iss = fmt.Sprintf("1 %d 1", i)
+			iss = fmt.Sprintf("1 %d %d", i, r.Pick(1, 1, 1, 1, 2))
 		}
 		gf := 0
 		if r.Chance(15) {
@@ -597,6 +601,22 @@ func (g *histGen) scenarioFinalizedIssuance() {
 	g.emit(fmt.Sprintf("sighash %d 2", j))
 	g.emit(fmt.Sprintf("sign %d 0 2 k0 n n", j))
 	g.emit(fmt.Sprintf("finalize %d", j))
+	if r.Bool() {
+		// multi-party shape: the blinder owns another input (and an unblinded output of its own), the issuance
+		// blinding arguments still name the finalized input, which it does not own
+		k := r.Intn(g.nin - 1)
+		if k >= j {
+			k++
+		}
+		g.emit(fmt.Sprintf("addouts 1 0 1000 wpkh1 k2 %d", k))
+		mine := g.nout
+		g.nout++
+		g.emit(fmt.Sprintf("blind %s 1 %d 1 %d 1 1 %d 0 1 1 1 1 0 %d", b01(r.Bool()), k, j, mine, g.cnt%250))
+		if r.Chance(40) {
+			g.emit(fmt.Sprintf("blind 0 1 %d 0 1 %d 0 1 1 1 1 0 %d", k, mine, g.cnt%250))
+		}
+		return
+	}
 	g.emit(fmt.Sprintf("blind %s 1 %d 1 %d 1 1 %d 0 1 1 1 1 0 %d", b01(r.Bool()), j, j, out, g.cnt%250))
 	if r.Chance(40) {
 		// the same call without issuance arguments is fine
